@@ -184,12 +184,6 @@ Definition oracle (c : case) (out : list Z) : bool :=
 
 Definition known (c : case) : Z := 0.
 
-Definition key_ok (p : policy) (ks : Z) : bool :=
-  match p with
-  | PNone => true
-  | Basic128Rsa15 | Basic256 => (128 <=? ks) && (ks <=? 256)
-  | _ => (256 <=? ks) && (ks <=? 512)
-  end.
 Definition byte_ok (b : Z) : bool := (0 <=? b) && (b <? 256).
 Definition u32_ok (v : Z) : bool := (0 <=? v) && (v <? U32).
 
